@@ -268,6 +268,17 @@ fn check_ordered_types(fam: &str, word: &[u8], x: &[X], ctx: &mut Ctx) {
         &|t| if t.is_none() { None } else { Some(t.inner.num_seconds() as f64) },
         ctx,
     );
+    // durations that differ below the microsecond, and durations beyond 292 years (step 40 000 days)
+    check_ordered::<TimeDelta>(fam, "TimeDelta(300 ns steps)", word, x, &|a| a.map_or(TimeDelta::nat(), |v| TimeDelta::from(v as i64 * 300 + 1000)), &|t| if t.is_none() { None } else { Some(((t.inner.num_nanoseconds().unwrap() - 1000) / 300) as f64) }, ctx);
+    check_ordered::<TimeDelta>(
+        fam,
+        "TimeDelta(40000 d steps)",
+        word,
+        x,
+        &|a| a.map_or(TimeDelta::nat(), |v| TimeDelta::parse(&format!("{}d", 110_000 + v as i64 * 40_000)).unwrap()),
+        &|t| if t.is_none() { None } else { Some(((t.inner.num_days() - 110_000) / 40_000) as f64) },
+        ctx,
+    );
     check_ordered::<String>(fam, "String", word, x, &|a| a.map_or("None".to_string(), |v| format!("s{:03}", v as i64 + 100)), &|t| if t.is_none() { None } else { Some(t[1..].parse::<f64>().unwrap() - 100.0) }, ctx);
     check_ordered::<Option<i64>>(fam, "Option<i64>", word, x, &|a| a.map(|v| v as i64), &|t| t.map(|v| v as f64), ctx);
     if x.iter().flatten().all(|v| *v == 0.0 || *v == 1.0) {
